@@ -56,6 +56,8 @@ def models():
         ("general_biexp", R.general_biexp, x_t, [(0.5, 2.0, 0.3, 1.0, 2.0), (0.1, 1.0, 0.2, 3.0, 1.5)], (0.3, 1.5, 0.25, 1.5, 1.8)),
         ("buildup", R.buildup_function, np.linspace(0.0, 2.0, 25), [(30.0, 0.3), (12.0, 0.8)], (10.0, 0.5)),
         ("gaussian", LS.gaussian, x_f, [(1.5, 2.0, 3.0), (-4.0, 1.0, 1.0)], (0.0, 1.5, 1.0)),
+        # narrow lines many widths apart, each reachable from the caller's start values but not from the other's optimum
+        ("gaussian-far-apart", LS.gaussian, x_f, [(-6.0, 0.8, 2.0), (6.0, 0.8, 2.0), (-6.0, 0.8, 1.0)], (0.0, 4.0, 1.0)),
         ("lorentzian", LS.lorentzian, x_f, [(1.5, 2.0, 3.0), (-4.0, 1.0, 1.0)], (0.0, 1.5, 1.0)),
         ("voigtian", LS.voigtian, x_f, [(1.5, 2.0, 1.0, 3.0), (-2.0, 1.0, 2.0, 1.0)], (0.0, 1.5, 1.5, 1.0)),
     ]
